@@ -267,7 +267,10 @@ def dec_field(codec, r, prim_of_tag):
         b = r.dyn()
         if codec == 'dynname' and not 0 < len(b) <= 31:
             raise Reject('entrypoint name length')
-        return b.decode()
+        try:
+            return b.decode()
+        except UnicodeDecodeError:
+            raise Reject('text field is not UTF-8 (a length prefix that cuts a character?)')
     if codec == 'mich':
         try:
             return mich.normalize(c05.spec_decode(r.dyn(), prim_of_tag))
